@@ -216,6 +216,16 @@ func combineTypes(types []*Type) *Type {
 			continue
 		}
 		// types are not equal, ensure that composite types can be combined
+		if (t.Name == ARRAY || t.Name == MAP) && t.Name == combinedT.Name {
+			// an empty literal takes the type of the other elements, also of variables
+			if t == EMPTY_ARRAY || t == EMPTY_MAP {
+				continue
+			}
+			if combinedT == EMPTY_ARRAY || combinedT == EMPTY_MAP {
+				combinedT = t
+				continue
+			}
+		}
 		if t.Fixed || combinedT.Fixed {
 			return ANY_TYPE
 		}
